@@ -23,7 +23,19 @@ import (
 // semaphores must be empty (every acquired slot released exactly once on
 // every return path) and `capacity` fresh searches must get through.
 
-func init() { hx.Register("C20/searcher", "C20", runC20Searcher) }
+func init() {
+	hx.Register("C20/searcher", "C20", func(t *testing.T, tp *simrt.Tape, keep bool) hx.Result { return runC20Searcher(t, tp, keep, "C20") })
+	// the same runs judged for C25: every file and every statistics counter a shard
+	// handed in is delivered to the caller exactly once
+	hx.Register("C25/searcher", "C25", func(t *testing.T, tp *simrt.Tape, keep bool) hx.Result { return runC20Searcher(t, tp, keep, "C25") })
+}
+
+type c20CallKey struct{}
+
+// c20Produced counts, per client call, what the stub shards handed in.
+type c20Produced struct {
+	files, matches, shards int
+}
 
 type c20StubAct struct {
 	kind string // ok error panic slow block
@@ -74,8 +86,13 @@ func (s *c20Stub) Search(ctx context.Context, q query.Q, opts *zoekt.SearchOptio
 	if err := s.run(ctx); err != nil {
 		return nil, err
 	}
+	if p, ok := ctx.Value(c20CallKey{}).(*c20Produced); ok {
+		p.files++
+		p.matches++
+		p.shards++
+	}
 	return &zoekt.SearchResult{Files: []zoekt.FileMatch{{FileName: "f-" + s.name, Repository: s.repo.Name, RepositoryID: s.repo.ID, Score: 1,
-		LineMatches: []zoekt.LineMatch{{Line: []byte("needle"), LineNumber: 1}}}}, Stats: zoekt.Stats{MatchCount: 1, FileCount: 1}}, nil
+		LineMatches: []zoekt.LineMatch{{Line: []byte("needle"), LineNumber: 1}}}}, Stats: zoekt.Stats{MatchCount: 1, FileCount: 1, ShardsScanned: 1}}, nil
 }
 
 func (s *c20Stub) List(ctx context.Context, q query.Q, opts *zoekt.ListOptions) (*zoekt.RepoList, error) {
@@ -91,7 +108,7 @@ func (s *c20Stub) List(ctx context.Context, q query.Q, opts *zoekt.ListOptions) 
 func (s *c20Stub) Close()         {}
 func (s *c20Stub) String() string { return "stub:" + s.name }
 
-func runC20Searcher(t *testing.T, tp *simrt.Tape, keepTrace bool) hx.Result {
+func runC20Searcher(t *testing.T, tp *simrt.Tape, keepTrace bool, prop string) hx.Result {
 	cfg := simrt.DrawConfig(tp)
 	cfg.KeepTrace = keepTrace
 	cfg.MaxSteps = 60000
@@ -118,6 +135,7 @@ func runC20Searcher(t *testing.T, tp *simrt.Tape, keepTrace bool) hx.Result {
 		ctxAfter time.Duration
 		gap      time.Duration
 		flush    time.Duration
+		total    int
 	}
 	var cplans [][]call
 	for i := 0; i < nClients; i++ {
@@ -125,7 +143,7 @@ func runC20Searcher(t *testing.T, tp *simrt.Tape, keepTrace bool) hx.Result {
 		n := tp.GenRange(1, 4)
 		for k := 0; k < n; k++ {
 			cs = append(cs, call{kind: tp.Gen(3), ctxKind: tp.Gen(3), ctxAfter: durs[tp.Gen(len(durs))], gap: []time.Duration{0, time.Millisecond, time.Second}[tp.Gen(3)],
-				flush: []time.Duration{0, 10 * time.Millisecond, time.Hour}[tp.Gen(3)]})
+				flush: []time.Duration{0, 10 * time.Millisecond, time.Hour}[tp.Gen(3)], total: []int{0, 0, 1, 2}[tp.Gen(4)]})
 		}
 		cplans = append(cplans, cs)
 	}
@@ -196,6 +214,9 @@ func runC20Searcher(t *testing.T, tp *simrt.Tape, keepTrace bool) hx.Result {
 							cf()
 						})
 					}
+					produced := &c20Produced{}
+					ctx = context.WithValue(ctx, c20CallKey{}, produced)
+					delivered := c20Produced{}
 					var err error
 					func() {
 						defer func() {
@@ -206,14 +227,25 @@ func runC20Searcher(t *testing.T, tp *simrt.Tape, keepTrace bool) hx.Result {
 						q := &query.Substring{Pattern: "needle"}
 						switch c.kind {
 						case 0:
-							_, err = ss.Search(ctx, q, &zoekt.SearchOptions{})
+							var r *zoekt.SearchResult
+							r, err = ss.Search(ctx, q, &zoekt.SearchOptions{TotalMaxMatchCount: c.total})
+							if r != nil {
+								delivered.files, delivered.matches, delivered.shards = len(r.Files), r.Stats.MatchCount, r.Stats.ShardsScanned
+							}
 						case 1:
-							err = ss.StreamSearch(ctx, q, &zoekt.SearchOptions{FlushWallTime: c.flush}, zoekt.SenderFunc(func(*zoekt.SearchResult) {}))
+							err = ss.StreamSearch(ctx, q, &zoekt.SearchOptions{FlushWallTime: c.flush, TotalMaxMatchCount: c.total}, zoekt.SenderFunc(func(r *zoekt.SearchResult) {
+								delivered.files += len(r.Files)
+								delivered.matches += r.Stats.MatchCount
+								delivered.shards += r.Stats.ShardsScanned
+							}))
 						default:
 							_, err = ss.List(ctx, q, nil)
 						}
 					}()
 					cancel()
+					if prop == "C25" && err == nil && c.kind != 2 && *produced != delivered {
+						setViol("result-handed-in-by-a-shard-not-delivered|searcher", fmt.Sprintf("a %s (TotalMaxMatchCount=%d, FlushWallTime=%s) returned without error; its shards handed in %+v (files, matches, shards scanned) but the caller received %+v; %s", []string{"Search", "StreamSearch"}[c.kind], c.total, c.flush, *produced, delivered, desc))
+					}
 					switch {
 					case err == nil:
 						oks++
@@ -252,7 +284,7 @@ func runC20Searcher(t *testing.T, tp *simrt.Tape, keepTrace bool) hx.Result {
 		finished = true
 	})
 	finishSim(s, &res, finished, &viol)
-	if viol == nil && res.HarnessErr == "" && finished && (leakI != 0 || leakB != 0) {
+	if prop == "C20" && viol == nil && res.HarnessErr == "" && finished && (leakI != 0 || leakB != 0) {
 		viol = &hx.Violation{Sig: "slot-leak|searcher", Detail: fmt.Sprintf("all searches, streams and listings have returned (ok %d, cancelled %d, failed %d) but the interactive semaphore still holds %d and the batch semaphore %d slot(s); %s", oks, cancels, errs, leakI, leakB, desc)}
 	}
 	res.Violation = viol
